@@ -600,6 +600,78 @@ func classifyPanic(r interface{}) string {
 	return "other"
 }
 
+// parseChainHist: `hist=<item>,<item>,…` — an item is a position (t g a) and a kind:
+//
+//	s  a sibling group with handlers of its own that declares a route and returns
+//	p  … that declares a route and then panics (the caller recovers)
+//	q  … that panics before declaring anything (the caller recovers)
+//	e  … whose second declaration is refused by the router (a duplicate; the caller recovers the router's own panic)
+//	n  two nested sibling groups, each declaring a route; the inner one panics, the caller of the OUTER one recovers
+//	r  a sibling route with a handler of its own
+//
+// an upper-case kind is the same with the path "" for the sibling group (it only shares handlers).
+func parseChainHist(s string) ([]string, bool) {
+	if s == "" {
+		return nil, false
+	}
+	items := strings.Split(s, ",")
+	for _, it := range items {
+		if len(it) != 2 || !strings.ContainsRune("tga", rune(it[0])) || !strings.ContainsRune("spqenrSPQEN", rune(it[1])) {
+			return nil, false
+		}
+	}
+	return items, true
+}
+
+// chainDecoys makes the declarations of the history items standing at position pos.  A decoy handler that ever runs
+// shows as a DECOY event of the request.
+func chainDecoys(f *flamego.Flame, cur **chainRun, hist []string, pos byte) {
+	for k, it := range hist {
+		if it[0] != pos {
+			continue
+		}
+		k := k
+		decoy := func(tag string) flamego.Handler {
+			return func() { (*cur).events = append((*cur).events, fmt.Sprintf("DECOY%d%s", k, tag)) }
+		}
+		kind := it[1]
+		gp := fmt.Sprintf("/d%d", k)
+		if kind >= 'A' && kind <= 'Z' {
+			kind, gp = kind+'a'-'A', ""
+		}
+		rp := fmt.Sprintf("/x%d", k)
+		recovered := func(fn func()) {
+			defer func() { _ = recover() }()
+			fn()
+		}
+		switch kind {
+		case 's':
+			f.Group(gp, func() { f.Get(rp, decoy("h")) }, decoy("g"))
+		case 'p':
+			recovered(func() {
+				f.Group(gp, func() { f.Get(rp, decoy("h")); panic("set-up failed") }, decoy("g"))
+			})
+		case 'q':
+			recovered(func() {
+				f.Group(gp, func() { panic("set-up failed") }, decoy("g"))
+			})
+		case 'e':
+			recovered(func() {
+				f.Group(gp, func() { f.Get(rp, decoy("h")); f.Get(rp, decoy("i")) }, decoy("g"))
+			})
+		case 'n':
+			recovered(func() {
+				f.Group(gp, func() {
+					f.Get(rp, decoy("h"))
+					f.Group("/e", func() { f.Get(rp, decoy("i")); panic("set-up failed") }, decoy("f"))
+				}, decoy("g"))
+			})
+		case 'r':
+			f.Get(rp, decoy("h"))
+		}
+	}
+}
+
 func execChain(args []string, lines [][]string) []string {
 	outs := []string{"new"}
 	if len(args) < 5 {
@@ -612,9 +684,20 @@ func execChain(args []string, lines [][]string) []string {
 	dev := args[0] == "1"
 	nmw, ngrp, nrt, hasAction := atoi(args[1]), atoi(args[2]), atoi(args[3]), args[4] == "1"
 	method := http.MethodGet
+	var hist []string
 	for _, a := range args[5:] {
 		if a == http.MethodHead || a == http.MethodPost || a == http.MethodGet {
 			method = a
+		}
+		if strings.HasPrefix(a, "hist=") {
+			var ok bool
+			if hist, ok = parseChainHist(a[5:]); !ok {
+				outs[0] = "bad-session"
+				for range lines {
+					outs = append(outs, "bad-session")
+				}
+				return outs
+			}
 		}
 	}
 	want := nmw + ngrp + nrt
@@ -698,6 +781,18 @@ func execChain(args []string, lines [][]string) []string {
 		f.Get(probe, func() { (*cur).events = append((*cur).events, "PROBE") }, func() { (*cur).events = append((*cur).events, "PROBE2") })
 		grp := fns[nmw : nmw+ngrp]
 		rt := fns[nmw+ngrp : nmw+ngrp+nrt]
+		// the registration history AROUND the session's route (`hist=`): other declarations made at the top level before
+		// the session's group / route ('t'), at the beginning of the session's outermost group callback ('g'; at the top
+		// level when the session has no group) and at the top level afterwards ('a').  None of their handlers belongs to
+		// the chain of the session's route.
+		chainDecoys(f, cur, hist, 't')
+		if ngrp == 0 {
+			chainDecoys(f, cur, hist, 'g')
+		} else {
+			late := inGroup
+			inGroup = func() { chainDecoys(f, cur, hist, 'g'); late() }
+		}
+		defer chainDecoys(f, cur, hist, 'a')
 		switch {
 		case ngrp == 0:
 			f.Route(method, "/r", rt)
@@ -725,6 +820,10 @@ func execChain(args []string, lines [][]string) []string {
 		default: // two nested groups, the outer one holding the first half
 			k := (ngrp + 1) / 2
 			f.Group("/a", func() {
+				if len(hist) > 0 {
+					inGroup()
+					inGroup = func() {}
+				}
 				f.Group("/b", func() { inGroup(); f.Route(method, "/r", rt) }, grp[k:]...)
 			}, grp[:k]...)
 			path = "/a/b/r"
@@ -839,6 +938,14 @@ func emitChain(emit Emit, dev int, lay chainLayout, hs []string, nreq int) {
 }
 
 func emitChainM(emit Emit, dev int, lay chainLayout, hs []string, nreq int, method string) {
+	emitChainH(emit, dev, lay, hs, nreq, method, "")
+}
+
+// emitChainH: … with a registration history around the session's route (`hist=`, see parseChainHist)
+func emitChainH(emit Emit, dev int, lay chainLayout, hs []string, nreq int, method, hist string) {
+	if hist != "" {
+		method += " hist=" + hist
+	}
 	emit("NEW chain %d %d %d %d %d %s", dev, lay.nmw, lay.ngrp, lay.nrt, lay.act, method)
 	for _, h := range hs {
 		emit("H %s", h)
@@ -1080,6 +1187,33 @@ func genChain(r *rand.Rand, tier string, emit Emit, c15 bool) {
 		rec(nil)
 	}
 
+	// the registration history around the route: every kind of sibling declaration (groups that return, that panic
+	// after / before declaring a route and are recovered, whose declaration is refused, nested ones, plain routes) at
+	// every position (before the route at the top level, at the beginning of the route's outermost group, afterwards),
+	// for every layout of stacks of depth <= 3; then pairs of items at random
+	if !c15 {
+		kinds, poss := "spqenrSPQEN", "tga"
+		simple := []string{"p n -", "p - -", "p n -"}
+		for d := 1; d <= 3; d++ {
+			for _, lay := range chainLayouts(d) {
+				for _, k := range kinds {
+					for _, p := range poss {
+						emitChainH(emit, 0, lay, simple[:d], 1, "GET", string(p)+string(k))
+					}
+				}
+			}
+		}
+	}
+	randHist := func() string {
+		kinds, poss := "spqenrSPQEN", "tga"
+		n := 1 + r.Intn(3)
+		items := make([]string, n)
+		for i := range items {
+			items[i] = string(poss[r.Intn(len(poss))]) + string(kinds[r.Intn(len(kinds))])
+		}
+		return strings.Join(items, ",")
+	}
+
 	// random deeper stacks
 	for s := 0; s < random; s++ {
 		d := 1 + r.Intn(maxDeep)
@@ -1111,7 +1245,11 @@ func genChain(r *rand.Rand, tier string, emit Emit, c15 bool) {
 		case k >= 5:
 			method = "HEAD"
 		}
-		emitChainM(emit, r.Intn(2), ls[r.Intn(len(ls))], seq, 1+r.Intn(3), method)
+		hist := ""
+		if !c15 && r.Intn(4) == 0 {
+			hist = randHist()
+		}
+		emitChainH(emit, r.Intn(2), ls[r.Intn(len(ls))], seq, 1+r.Intn(3), method, hist)
 	}
 
 	// malformed stream: the executor and the driver must agree on rejecting these too
